@@ -499,6 +499,12 @@ fn mode_reclaim(rng: &mut Rng, n_cases: u64, max_len: u64) {
                     viol.push(Viol { prop: "C07", step: i, what: format!("{} entries stored after a write at t={now}, but only {} keys have a lifetime reaching t-W (W={w}ns)", st.len, bound) });
                 }
             }
+            // lifetime clause, physical side: a state whose requested lifetime has not passed must still be held
+            // (a sweep that drops it makes forgetting distinguishable from remembering)
+            let live = ghost.values().filter(|x| **x > now).count();
+            if st.len < live {
+                viol.push(Viol { prop: "C07", step: i, what: format!("{} keys have a requested lifetime reaching past t={now}, but only {} entries are stored (state dropped before its lifetime ended; sweep ran at this step: {})", live, st.len, st.cleaned) });
+            }
             max_len_seen = max_len_seen.max(st.len);
             steps.push(st);
         }
